@@ -53,10 +53,16 @@ def get_accessor_for_url(url, accessor_options={}):
                 info = json.loads(accessor.fetch_file("info"))
                 if sharded_base.ShardedAccessorBase.info_is_sharded(info):
                     is_sharding = True
-            except (DataAccessError, json.JSONDecodeError):
-                # In the event that info does not exist
-                # Or info is malformed
-                # Fallback to default behavior
+            except DataAccessError as exc:
+                # In the event that info does not exist: fallback to default
+                # behavior. An I/O error while reading an existing info must
+                # not be mistaken for that, or a sharded dataset would be
+                # written to with the plain accessor.
+                if (isinstance(exc.__cause__, OSError)
+                        and not isinstance(exc.__cause__, FileNotFoundError)):
+                    raise
+            except json.JSONDecodeError:
+                # info is malformed: fallback to default behavior
                 ...
 
         if is_sharding:
